@@ -5,7 +5,7 @@ CONSTANTS
   MaxN = 4
   SymN = 3
   GraphMod = 16
-  Decors = {"none", "dangling", "wrong", "null"}
+  Decors = {"none", "dangling", "wrong", "null", "direct"}
   DecorMod = 4
   FunMod = 4
   OutlineNs = {1, 2}
